@@ -74,15 +74,17 @@ static bool all_finite(const std::vector<double> &v) {
 // second derivative at the left end of piece j (side=0) or the right end (side=1), from three values of S' (exact for
 // piecewise quadratics S')
 static double curvature(vt::Spline &sp, const Model &m, size_t j, int side) {
-  double a = m.g.x[j], b = m.g.x[j + 1], h = b - a;
-  double d0 = sp.CalculateDerivative(a), d1 = sp.CalculateDerivative(a + h / 2);
-  // S'(b) on piece j: b belongs to piece j+1 for getInterval unless j is the last piece -> extrapolate the quadratic
-  // from a, a+h/4, a+h/2 instead of evaluating at b
-  double dq = sp.CalculateDerivative(a + h / 4);
-  // quadratic through (0,d0),(h/4,dq),(h/2,d1): q(t) = d0 + c1 t + c2 t^2
-  ld c2 = ((ld)d1 - 2 * (ld)dq + (ld)d0) / ((ld)h * h / 8);
-  ld c1 = ((ld)dq - (ld)d0) / ((ld)h / 4) - c2 * (ld)h / 4;
-  return side == 0 ? double(c1) : double(c1 + 2 * c2 * h);
+  // nodes at the end point itself and h/4, h/2 into the piece: no extrapolation, all nodes belong to piece j for
+  // getInterval (the right end of the LAST piece does; side=1 is only used there)
+  double h = m.g.x[j + 1] - m.g.x[j];
+  double a = side == 0 ? m.g.x[j] : m.g.x[j + 1], hs = side == 0 ? h : -h;
+  volatile double xq = a + hs / 4, xh = a + hs / 2;
+  ld d0 = sp.CalculateDerivative(a), dq = sp.CalculateDerivative(xq), d1 = sp.CalculateDerivative(xh);
+  ld tq = (ld)xq - (ld)a, th = (ld)xh - (ld)a;
+  // quadratic q(t) = d0 + c1 t + c2 t^2 through (0,d0),(tq,dq),(th,d1); S''(a) = c1
+  ld c2 = ((d1 - d0) / th - (dq - d0) / tq) / (th - tq);
+  ld c1 = (dq - d0) / tq - c2 * tq;
+  return double(c1);
 }
 // noise of curvature(): second difference with spacing h/4 of values S' carrying an error of 32 eps (Y/h + h F2)
 static double tcurv(const Model &m, size_t j) {
@@ -430,7 +432,7 @@ static Result run_fit(const json &c) {
   }
   for (size_t k = 0; k + 1 < nk; ++k) {
     double ek = double((ld)fg[0] + (ld)k * (ld)fg[1]);
-    if (!close(knots[k], ek, 64 * EPS * double(nk), 1e-300)) {
+    if (!(std::fabs(knots[k] - ek) <= 64 * EPS * double(nk) * std::max(std::fabs(fg[0]), std::fabs(fg[2])))) {
       r.fail("Spline::GenerateGrid", fmt("knot %zu = %.17g, requested grid point %.17g", k, knots[k], ek));
       return r;
     }
